@@ -100,7 +100,8 @@ def run(module, cfg, generated=None, env=None, workers=None, timeout=1800, simul
         with open(os.path.join(tmp, module + '.cfg'), 'w') as fh:
             fh.write(cfg)
         w = str(workers or os.environ.get('VERIF_JOBS') or 'auto')
-        cmd = ['java', '-XX:+UseParallelGC', '-Xmx8g', '-Xss256m']
+        # (TLC creates an empty directory tlc-<n> in java.io.tmpdir on every start and leaves it behind: keep it inside the scratch directory)
+        cmd = ['java', '-XX:+UseParallelGC', '-Xmx8g', '-Xss256m', '-Djava.io.tmpdir=' + tmp]
         if deque:
             cmd.append('-Dtlc2.tool.queue.IStateQueue=StateDeque')
         cmd += ['-cp', JAR, 'tlc2.TLC', '-workers', w, '-metadir', os.path.join(tmp, 'states'),
